@@ -30,9 +30,31 @@ pub fn check_text(st: &mut Stats, text: &str, check_tokens: bool, origin: &str) 
     st.evals += 1;
     let case = || json!({"text": text, "origin": origin});
     let ref_toks = refsyn::tokenize(text);
+    // Every eighth text (chosen by its hash, so a replay does the same) is read with a variable
+    // ordering handed in through the API whose symbols are NAMED like keywords and aliases, plus
+    // a few of the text's own names: the grammar does not depend on what the ordering contains.
+    let ordering = |text: &str| -> Option<Vec<rsbdd::NamedSymbol>> {
+        if util::hash_str(text) % 8 != 3 {
+            return None;
+        }
+        let mut names: Vec<String> = ["true", "false", "in", "not", "and", "or", "if", "then", "else", "exists", "forall", "all", "any", "mu", "nu", "lfp", "gfp", "eq", "iff", "implies", "xor", "nor", "nand"].iter().map(|s| s.to_string()).collect();
+        if let Ok(ts) = &ref_toks {
+            for t in ts {
+                if let Tok::Var(v) = t {
+                    if !names.contains(v) && names.len() < 26 {
+                        names.push(v.clone());
+                    }
+                }
+            }
+        }
+        Some(names.into_iter().enumerate().map(|(i, n)| rsbdd::NamedSymbol { name: std::rc::Rc::new(n), id: 2 * i + 1 }).collect())
+    };
+    if ordering(text).is_some() {
+        st.bump("read_with_keyword_named_ordering");
+    }
     if check_tokens {
         st.bump("token_lists_compared");
-        let eng = guarded(|| SymbolicBDD::tokenize(&mut BufReader::new(text.as_bytes()), None));
+        let eng = guarded(|| SymbolicBDD::tokenize(&mut BufReader::new(text.as_bytes()), ordering(text)));
         match (&eng, &ref_toks) {
             (Ok(Ok(et)), Ok(rt)) => {
                 let conv: Vec<Tok> = et.iter().map(tok_of_engine).collect();
@@ -60,7 +82,7 @@ pub fn check_text(st: &mut Stats, text: &str, check_tokens: bool, origin: &str) 
         Ok(t) => refsyn::parse_tokens(t).map_err(SynError::Parse),
         Err(e) => Err(SynError::Lex(e.clone())),
     };
-    let engine = guarded(|| ParsedFormula::new(&mut BufReader::new(text.as_bytes()), None));
+    let engine = guarded(|| ParsedFormula::new(&mut BufReader::new(text.as_bytes()), ordering(text)));
     let ntoks = ref_toks.as_ref().map(|t| t.len() - 1).unwrap_or(0);
     match (engine, &reference) {
         (Err(c), _) => {
